@@ -453,6 +453,9 @@ class SerializationMethodVisitor(
         return self._wrap(cls, method)
 
     def primitive(self, cls: Type) -> SerializationMethod:
+        if cls is float and self.check_type:
+            # an int is a valid float value (PEP 484 numeric tower, JSON numbers)
+            return TypeCheckIdentityMethod((float, int), self._any_fallback(cls))
         return self._wrap(cls, IDENTITY_METHOD)
 
     def subprimitive(self, cls: Type, superclass: Type) -> SerializationMethod:
